@@ -242,6 +242,18 @@ def run_curve_job(col):
         col.add("C09.O2", "CharacteristicCurve._callback items=%s" % with_items,
                 "x = displacement of the first boundary point; y = sum over all boundary points of the first field's rows of " + ("the items' summed forces" if with_items else "the substep's residual"), okx and oky,
                 method_where(CC, "_callback"))
+    # the recorded point of the curve is a value, not a window onto the live field: a later in-place change of the field (the next substep's
+    # update, a reset of the field after the job) leaves the recorded displacement as it was
+    job = it.call(CC, [], dict(steps=[], boundary=Bnd(), items=None, callback=lambda i, j, s, **kw: None))
+    it.call_method(job, "_callback", [0, 0, sub])
+    U = fc.attrs["fields"][0].attrs["values"]
+    before = [P(v) for v in npmodel.to_obj(np.asarray(it.getattr(job, "x")[0])).reshape(-1)]
+    keep = U[2].copy()
+    U[2, :] = [sym("later0"), sym("later1")]
+    after = [P(v) for v in npmodel.to_obj(np.asarray(it.getattr(job, "x")[0])).reshape(-1)]
+    U[2, :] = keep
+    col.add("C09.O2", "CharacteristicCurve recorded displacement is a copy", "a recorded curve point does not change when the field values are changed in place afterwards",
+            all(is_zero(a - b) for a, b in zip(before, after)), "%s: recorded %s became %s" % (method_where(CC, "_callback"), [str(v) for v in before], [str(v) for v in after]))
     col.add("C09.O2", "CharacteristicCurve user callback", "the user callback is invoked with the same step, substep numbers and result", seen == [(0, 1, sub), (0, 1, sub)])
     finish_info(col, it)
 
